@@ -1203,6 +1203,19 @@ class Interp(ModelMixin):
             tgt = self.prog.resolve_name_expr(mod, expr.func)
             if isinstance(tgt, ClassInfo) and not expr.args and not expr.keywords:
                 return ExtV('singleton:' + tgt.qualname)
+            if isinstance(tgt, tuple) and tgt[0] == 'external' and tgt[1] == 'functools.partial' and expr.args:
+                # a module-level partial: the wrapped callable and its pre-bound arguments (a `{}` / `[]` argument is one shared object)
+                def mg(x):
+                    if isinstance(x, ast.Dict) and not x.keys:
+                        return ExtV('shared-module-level:dict')
+                    if isinstance(x, ast.List) and not x.elts:
+                        return ExtV('shared-module-level:list')
+                    r = self.prog.resolve_name_expr(mod, x) if isinstance(x, (ast.Name, ast.Attribute)) else None
+                    if isinstance(r, tuple) and r and r[0] == 'external':
+                        return self.ext_value(r[1])
+                    return self.module_global(mod, x, st)
+                return PartV('partial', mg(expr.args[0]), tuple(mg(a) for a in expr.args[1:]),
+                             tuple(sorted((k.arg, mg(k.value)) for k in expr.keywords if k.arg)))
             if isinstance(tgt, tuple) and tgt[0] == 'external':
                 return ExtV('result:' + tgt[1])
             if isinstance(expr.func, ast.Name) and expr.func.id == 'object':
